@@ -90,7 +90,8 @@ def replay(c, b):
     from inference.mcmc import EnsembleSampler
     log = []
     post = StepPost(log)
-    start = np.array(c["start"], dtype=float)
+    # whole-number starting positions: given as a float array or, for every other behaviour, as an integer array
+    start = np.array(c["start"], dtype=(int if len(b["draws"]) % 2 else float))
     start_copy = start.copy()
     kw = {}
     if c["mode"] == "box":
